@@ -19,6 +19,12 @@ Definition C26_statement_acks : Prop :=
 Theorem C26_all_delivered_notifications_acked : C26_statement_acks.
 Proof. intros h a H. apply ev_delivered_placed. exact H. Qed.
 
+(* a reconnect - republishing some subscriptions, recreating others - never drops a queued acknowledgement: whatever
+   was pending before a Republish or a recreateSubscription is still pending afterwards *)
+Theorem C26_reconnect_keeps_queued_acks :
+  forall pending e a, (forall r, e <> EPublish r) -> In a pending -> In a (fst (ev_step pending e)).
+Proof. exact ev_step_keeps_pending. Qed.
+
 (* the defect that was fixed (known_findings.txt `fixed:`): republished notifications were never acknowledged *)
 Theorem C26_refuted_before_fix_republish_never_acked :
   ~ (forall h a, In a (ev_delivered_gen false [] h) -> exists acks, In acks (ev_requests_gen false [] h) /\ In a acks).
@@ -113,6 +119,7 @@ Theorem C26_partial_items_survive_consecutive_reconnects :
 Proof. exact rounds_keep_items. Qed.
 
 Print Assumptions C26_all_delivered_notifications_acked.
+Print Assumptions C26_reconnect_keeps_queued_acks.
 Print Assumptions C26_refuted_before_fix_republish_never_acked.
 Print Assumptions C26_publish_notifications_acked_exactly_once.
 Print Assumptions C26_refuted_failed_recreate_ignored.
